@@ -85,7 +85,7 @@ def _refresh(node, depth=0):
 
 
 def explore(fn, deadline_wall, region=None, max_paths=1000000, per_path_timeout=None,
-            want_example=True):
+            want_example=True, before_path=None):
     """Returns dict(status=..., paths=..., confirmed=..., ignored=..., unknown=...,
     cex=..., detail=..., covers=...)."""
     from crosshair import core
@@ -111,6 +111,8 @@ def explore(fn, deadline_wall, region=None, max_paths=1000000, per_path_timeout=
             res['detail'] = 'wall budget exhausted after %d paths' % res['paths']
             break
         res['paths'] += 1
+        if before_path is not None:
+            before_path()
         ppt = per_path_timeout if per_path_timeout else max(5.0, min(60.0, (deadline_wall - now)))
         itr_start = time.process_time()
         space = StateSpace(execution_deadline=itr_start + ppt,
